@@ -32,6 +32,7 @@ fn prog(name: &str, setup: Vec<TOp>, threads: Vec<Vec<TOp>>) -> Arc<Prog> {
         strict_unlink: true,
         fs_switch: false,
         recover_at_removals: false,
+            recover_at_meta: false,
         fault: None,
     })
 }
@@ -117,6 +118,7 @@ pub fn c06_programs() -> Vec<Arc<Prog>> {
             strict_unlink: true,
             fs_switch: false,
             recover_at_removals: false,
+            recover_at_meta: false,
             fault: None,
         })
     };
@@ -346,6 +348,7 @@ pub fn c03_programs() -> Vec<Arc<Prog>> {
             strict_unlink: true,
             fs_switch,
             recover_at_removals: false,
+            recover_at_meta: false,
             fault: None,
         })
     };
@@ -372,6 +375,7 @@ pub fn c09_programs() -> Vec<Arc<Prog>> {
             strict_unlink: false,
             fs_switch: false,
             recover_at_removals: false,
+            recover_at_meta: false,
             fault: None,
         })
     };
@@ -417,6 +421,7 @@ pub fn c11_removal_programs() -> Vec<Arc<Prog>> {
             strict_unlink: true,
             fs_switch: false,
             recover_at_removals: true,
+            recover_at_meta: false,
             fault: None,
         })
     };
@@ -430,6 +435,19 @@ pub fn c11_removal_programs() -> Vec<Arc<Prog>> {
             vec![vec![Put(1, 7, 8), Put(0, 8, 8), Put(1, 9, 8)], vec![Get(0)]],
         ),
     ]
+}
+
+/// C02 under concurrency: the same programs, with a crash image recovered after every manifest
+/// write and every rename as well
+pub fn c02_meta_programs() -> Vec<Arc<Prog>> {
+    c11_removal_programs()
+        .into_iter()
+        .map(|p| {
+            let mut q = (*p).clone();
+            q.recover_at_meta = true;
+            Arc::new(q)
+        })
+        .collect()
 }
 
 /// C09 with an I/O fault: writers queued behind a leader that is waiting for room when the
@@ -446,6 +464,7 @@ pub fn c09_fault_programs() -> Vec<Arc<Prog>> {
             strict_unlink: false,
             fs_switch: false,
             recover_at_removals: false,
+            recover_at_meta: false,
             fault: Some(fault),
         })
     };
